@@ -149,7 +149,10 @@ def r3(ctx):
         fa = atom_texts(facts_at(lp))
         is_req = any(t.startswith("isinstance(") and "ConfirmedRequestPDU" in t and "Unconfirmed" not in t and p for t, p in fa)
         if f.name == "get_next_invoke_id":
-            ok = len(lp.orelse) == 1 and isinstance(lp.orelse[0], ast.Break)
+            # no live transaction uses the candidate: leave the allocation loop (break, the candidate is returned behind it) or return it at once
+            cand = {norm(x) for t_ in match_test(lp) for x in ast.walk(t_.test) if isinstance(x, ast.Name)} - {norm(lp.target)}
+            ok = len(lp.orelse) == 1 and (isinstance(lp.orelse[0], ast.Break)
+                                          or (isinstance(lp.orelse[0], ast.Return) and lp.orelse[0].value is not None and norm(lp.orelse[0].value) in cand and norm(lp.orelse[0].value) != "addr"))
             ctx.check("SMAP.%s:free-id-leaves" % key, ok, where(c.module, lp), "an ID no live transaction uses must end the search")
             continue
         if f.name == "sap_indication":
